@@ -1,9 +1,23 @@
-from .stubs_lib import StubsLib
+from .stubs_fft import StubsFft, FftFunc
+from .interp import Interp
 
 
-class Stubs(StubsLib):
+class Stubs(StubsFft):
     pass
 
 
 def make_stubs():
     return Stubs()
+
+
+# calling an FftFunc value from interpreted code
+_orig_call = Interp.call
+
+
+def _call(self, f, args, kwargs, ctx):
+    if isinstance(f, FftFunc):
+        return self.stubs.call_fft(ctx, f, *args, **kwargs)
+    return _orig_call(self, f, args, kwargs, ctx)
+
+
+Interp.call = _call
